@@ -14,7 +14,7 @@ Not decided: SPL's fee arithmetic itself; amounts actually received."""
 import re
 from analysis import cfg, atoms as A, preach, pino, layout as L
 from analysis.ir import callee_path, AnchorMissing
-from analysis.prov import prov_of, prov_assuming, strip, leaves, subterms, show
+from analysis.prov import prov_of, prov_assuming, strip, leaves, subterms, show, field_chain
 from analysis.match import is_param, is_field, is_call, const_val, sh, mentions, fail_conditions
 from rules.common import calls_to, ends, arg_name, acc
 from rules import C12
@@ -379,6 +379,47 @@ def R5_tlv_reader(run):
                                     ok = False
     run.check("R5", "epoch-selection", ok, "pino_get_epoch_transfer_fee does not return the newer triple iff epoch >= newer epoch (all three fields from one prefix)", loc=g.loc(),
               detail="epoch >= newer.epoch ? newer{epoch,bps,max} : older{epoch,bps,max}")
+    # the Anchor path's selection: Token-2022's own selector on the current epoch, or the same comparison written out
+    h = facts.need_fn("util::v2::token::get_epoch_transfer_fee")
+    run.touch(h)
+    pvh = prov_of(h)
+    sel = calls_to(h, lambda p: p.endswith("TransferFeeConfig::get_epoch_fee"))
+    from_clock = lambda t: mentions(t, lambda x: x[0] == "call" and x[1].endswith("::get") and "Clock" in x[1]) and is_field(strip(t), "epoch")
+    rets = []
+    for bi, bb in enumerate(h.blocks):
+        if bb["t"]["k"] == "ret":
+            for l in leaves(pvh.local(0, bi, len(bb["s"]))):
+                for x in subterms(l):
+                    if x[0] == "agg" and x[2] == "Some":
+                        rets.append(strip(dict(x[3])["0"]))
+    if sel:
+        ok = all(from_clock(a[1]) for _, _, a in sel) and rets and all(any(y[0] == "call" and y[1].endswith("get_epoch_fee") for y in subterms(r)) for r in rets)
+        what = "get_epoch_fee(Clock::get()?.epoch)"
+    else:
+        ok = False
+        what = "explicit"
+        for at in A.atoms(h):
+            c = at.cond()
+            if not c:
+                continue
+            for (o, x, y) in ((c[0], c[1], c[2]), (A.SWAP[c[0]], c[2], c[1])):
+                fy = field_chain(strip(y)) or []
+                if o in ("Ge", "Lt") and from_clock(x) and fy[-2:] == ["newer_transfer_fee", "epoch"]:
+                    good = True
+                    for newer in (True, False):
+                        pv = prov_assuming(h, [(at, newer if o == "Ge" else (not newer))])
+                        want = "newer_transfer_fee" if newer else "older_transfer_fee"
+                        for bi, bb in enumerate(h.blocks):
+                            if bb["t"]["k"] == "ret" and pv.flow.state_in[bi] is not None:
+                                for l in leaves(pv.local(0, bi, len(bb["s"]))):
+                                    for z in subterms(l):
+                                        if z[0] == "agg" and z[2] == "Some":
+                                            fc = field_chain(strip(dict(z[3])["0"])) or []
+                                            if fc[-1:] != [want]:
+                                                good = False
+                    ok = ok or good
+    run.check("R5", "epoch-selection@anchor", bool(ok), "get_epoch_transfer_fee does not select the fee schedule Token-2022 applies in the current epoch "
+              "(newer iff Clock epoch >= newer_transfer_fee.epoch)", loc=h.loc(), detail=what)
 
 
 RULES = [R1_swap_wiring, R3_reposition_info, R4_helpers, R5_tlv_reader]
